@@ -320,6 +320,7 @@ def step(W, name, args, rec, judge, ctx, wit, before_vars):
         interior_before = np.array(src.value, copy=True)
         bc_before = coeff_bytes(W, src.BCs)
         rhs = P.constantSourceTerm(P.CellVariable(W.m, 1.0 + W.fresh()))
+        rhs = rhs + 0.5 + np.arange(rhs.size) * 0.125        # non-zero entries in the ghost rows as well
         rhs_snap = rhs.tobytes()
         res = P.solveExplicitPDE(src, 0.125, rhs)
         W.vars[r] = res
@@ -406,12 +407,23 @@ def arrays_of(obj, np):
 def build_check(W, v, kind, judge, ctx, wit):
     P, np = W.P, W.np
     u = P.FaceVariable(W.m, 0.75)
+    rs = np.random.RandomState(W.counter + 17)
+    for nm in ("_xvalue", "_yvalue", "_zvalue"):       # every sign pattern incl. exact zeros
+        a = getattr(u, nm)
+        if a.size:
+            setattr(u, nm, rs.choice([-1.5, -0.5, 0.0, 0.75, 2.0], size=a.shape))
+    uup = P.FaceVariable(W.m, 1.0)
+    for nm in ("_xvalue", "_yvalue", "_zvalue"):
+        a = getattr(uup, nm)
+        if a.size:
+            setattr(uup, nm, rs.choice([-1.0, 1.0], size=a.shape))
     FL = P.fluxLimiter("SUPERBEE")
     builders = {
         "diffusionTerm": lambda: P.diffusionTerm(W.D),
         "convectionTerm": lambda: P.convectionTerm(u),
-        "convectionUpwindTerm": lambda: P.convectionUpwindTerm(u),
-        "convectionTVDupwindRHSTerm": lambda: P.convectionTVDupwindRHSTerm(u, v, FL),
+        "convectionUpwindTerm": lambda: (P.convectionUpwindTerm(u), P.convectionUpwindTerm(u, uup)),
+        "convectionTVDupwindRHSTerm": lambda: (P.convectionTVDupwindRHSTerm(u, v, FL),
+                                               P.convectionTVDupwindRHSTerm(u, v, FL, uup)),
         "transientTerm": lambda: P.transientTerm(v, 0.5, 1.0),
         "gradientTerm": lambda: P.gradientTerm(v),
         "divergenceTerm": lambda: P.divergenceTerm(P.gradientTerm(v)),
@@ -425,10 +437,13 @@ def build_check(W, v, kind, judge, ctx, wit):
         "faceLocations": lambda: P.faceLocations(W.m),
     }
     fn = builders[kind]
-    before = (W.snap_var(v), [a.tobytes() for a in arrays_of(W.D, np)], [a.tobytes() for a in arrays_of(u, np)])
+    def inputs():
+        return (W.snap_var(v), [a.tobytes() for a in arrays_of(W.D, np)], [a.tobytes() for a in arrays_of(u, np)],
+                [a.tobytes() for a in arrays_of(uup, np)])
+    before = inputs()
     r1 = fn()
     r2 = fn()
-    after = (W.snap_var(v), [a.tobytes() for a in arrays_of(W.D, np)], [a.tobytes() for a in arrays_of(u, np)])
+    after = inputs()
     if before != after:
         judge.bad("C15_Pure", dict(ctx, builder=kind), wit)
     b1 = [a.tobytes() for a in arrays_of(r1, np)]
@@ -455,3 +470,46 @@ def simulate(cfg, num, depth, seed, timeout=1800):
     if not res["printed"]:
         raise tlcrun.MachineryError("FVLifecycle simulation produced nothing:\n" + tlcrun.tlc_error_excerpt(res["out"]))
     return parse_behaviours(res["printed"]), res
+
+
+def edge_behaviours(depth, timeout=1800):
+    """every transition of the bounded FVLifecycle state graph (TLC exhaustive, ACTION_CONSTRAINT
+    EmitEdge), each turned into a behaviour: a shortest path to its source state plus the edge"""
+    import re as _re
+    cfg = open(tlcrun.SPEC + "/FVLifecycle_edges.cfg").read()
+    cfg = _re.sub(r"MaxDepth = \d+", f"MaxDepth = {depth}", cfg)
+    path = tlcrun.fresh("edges.cfg")
+    open(path, "w").write(cfg)
+    res = tlcrun.run_tlc("FVLifecycle.tla", path, workers=1, timeout=timeout, heap="6g")
+    if not res["ok"]:
+        raise tlcrun.MachineryError("FVLifecycle (edge enumeration) failed:\n" + tlcrun.tlc_error_excerpt(res["out"]))
+    edges = res["printed"]
+    parent = {}
+    init_keys = {e["src"] for e in edges if e["step"]["level"] == 2}
+    frontier = list(init_keys)
+    for k in init_keys:
+        parent[k] = None
+    by_src = {}
+    for e in edges:
+        by_src.setdefault(e["src"], []).append(e)
+    while frontier:
+        nxt = []
+        for k in frontier:
+            for e in by_src.get(k, []):
+                if e["dst"] not in parent:
+                    parent[e["dst"]] = e
+                    nxt.append(e["dst"])
+        frontier = nxt
+
+    def path_to(key):
+        steps = []
+        while parent.get(key) is not None:
+            e = parent[key]
+            steps.append(e["step"])
+            key = e["src"]
+        return list(reversed(steps))
+    behs = []
+    for e in edges:
+        if e["src"] in parent:
+            behs.append(path_to(e["src"]) + [e["step"]])
+    return behs, res
